@@ -7,6 +7,7 @@
 -/
 import CklVerif.Model.Eval
 import CklVerif.Driver.AstCodec
+import CklVerif.Driver.NativeSem
 namespace Ckl
 
 def decStr? : Sx → Option String
@@ -200,21 +201,37 @@ def runSessionRows (ld : Loader) (fuel : Nat) (s0 : State) (senv : EnvId) (progs
       .list [.atom "modstack", .atom (toString sEnd.modstack.length)]]
     return outs ++ [ghost]
 
+/-- the loader of a `session` request: module ASTs, the regenerated native tables, and the driver's interpretation
+    `driverNativeSem` / `driverNativeArgs` of the built-ins the evaluator model leaves open -/
+def sessionLoader (ms : List (String × Bool × Except SynErr Node)) (eff known realBase : List String) : Loader := {
+  bundled := (ms.filter (·.2.1)).map (fun m => (m.1, m.2.2)),
+  user := (ms.filter (fun m => !m.2.1)).map (fun m => (m.1, m.2.2)),
+  effectful := eff,
+  knownNatives := known,
+  baseNames := realBase.filter (fun n => !modelledNatives.contains n && !["checkerlang_secure_mode", "MAXINT", "MININT", "NULL"].contains n),
+  bundledNames := ["base.ckl", "bitwise.ckl", "core.ckl", "date.ckl", "io.ckl", "legacy.ckl", "list.ckl", "math.ckl", "os.ckl",
+                   "predicate.ckl", "random.ckl", "set.ckl", "stat.ckl", "string.ckl", "sys.ckl", "type.ckl"],
+  nativeSem := driverNativeSem,
+  nativeArgs := driverNativeArgs }
+
+/-- the loader of a `libsetup` request (sessions on the real base environment) -/
+def libLoader (ms : List (String × Bool × Except SynErr Node)) (eff known : List String) : Loader := {
+  bundled := (ms.filter (·.2.1)).map (fun m => (m.1, m.2.2)),
+  user := (ms.filter (fun m => !m.2.1)).map (fun m => (m.1, m.2.2)),
+  effectful := eff,
+  knownNatives := known,
+  baseNames := [], bundledNames := [],
+  nativeSem := driverNativeSem,
+  nativeArgs := driverNativeArgs }
+
 def handleEval : Sx → Option Sx
   | .list (.atom "session" :: .list [.atom "flags", .atom sec, fuelA] :: .list (.atom "mods" :: mods) ::
       .list (.atom "base" :: baseNames) :: .list (.atom "eff" :: eff) :: .list (.atom "known" :: known) :: progs) => do
     let fuel ← atomNat? fuelA
     let secure := sec == "secure"
     let ms ← mods.mapM (decodeModule "m")
-    let ld : Loader := {
-      bundled := (ms.filter (·.2.1)).map (fun m => (m.1, m.2.2)),
-      user := (ms.filter (fun m => !m.2.1)).map (fun m => (m.1, m.2.2)),
-      effectful := ← eff.mapM decStr?,
-      knownNatives := ← known.mapM decStr?,
-      baseNames := (← baseNames.mapM decStr?).filter (fun n => !modelledNatives.contains n && !["checkerlang_secure_mode", "MAXINT", "MININT", "NULL"].contains n),
-      bundledNames := ["base.ckl", "bitwise.ckl", "core.ckl", "date.ckl", "io.ckl", "legacy.ckl", "list.ckl", "math.ckl", "os.ckl",
-                       "predicate.ckl", "random.ckl", "set.ckl", "stat.ckl", "string.ckl", "sys.ckl", "type.ckl"] }
     let realBase ← baseNames.mapM decStr?
+    let ld : Loader := sessionLoader ms (← eff.mapM decStr?) (← known.mapM decStr?) realBase
     let (s0, senv) := initialState secure (if realBase.isEmpty then modelledNatives else modelledNatives.filter realBase.contains)
     some (.list (.atom "session" :: runSessionRows ld fuel s0 senv progs))
   | _ => none
@@ -236,12 +253,7 @@ def libSetup : Sx → Option (Except Sx LibSetup)
     let fuel ← atomNat? fuelA
     let secure := sec == "secure"
     let ms ← mods.mapM (decodeModule "m")
-    let ld : Loader := {
-      bundled := (ms.filter (·.2.1)).map (fun m => (m.1, m.2.2)),
-      user := (ms.filter (fun m => !m.2.1)).map (fun m => (m.1, m.2.2)),
-      effectful := ← eff.mapM decStr?,
-      knownNatives := ← known.mapM decStr?,
-      baseNames := [], bundledNames := [] }
+    let ld : Loader := libLoader ms (← eff.mapM decStr?) (← known.mapM decStr?)
     let (s0, senv) := initialState secure ["bind_native"]
     match ld.bundled.lookup (if mode == "legacy" then "legacy.ckl" else "base.ckl") with
     | some (.ok ast) =>
